@@ -269,7 +269,14 @@ func scenario(rec *mon.Recorder, c int) {
 	steps = append(steps, fmt.Sprintf("restart of %d", victim.Id))
 	prevCommit := victim.In.ZeroGroup.VerifStatus().Commit
 	if err := cl.Restart(victim.Idx); err != nil {
-		rec.Violation("restart:failed", fmt.Sprintf("%s: restart of node %d: %v", desc, victim.Id, err), replay())
+		sym := "restart:failed"
+		if containsStr(err.Error(), "join handshake did not return") {
+			sym = "restart:join-handshake-hangs"
+			if compact {
+				sym += ":with-compacted-log"
+			}
+		}
+		rec.Violation(sym, fmt.Sprintf("%s: restart of node %d: %v", desc, victim.Id, err), replay())
 		return
 	}
 	via := cl.Nodes[0]
